@@ -181,35 +181,40 @@ def _parse_driver_output(out, transcript):
 
 
 def split_transcript(transcript, k):
-    """split at case boundaries into k chunks of similar size (greedy by bytes)"""
-    header, cases, cur = [], [], None
+    """split at case boundaries into k chunks of similar size (greedy by bytes); two streaming passes, so that a
+       transcript of several GB is never held in memory"""
+    header, sizes_case = [], []
     with open(transcript) as f:
+        started = False
         for line in f:
             if line.startswith("C "):
-                cur = [line]
-                cases.append(cur)
-            elif cur is None:
+                started = True
+                sizes_case.append(len(line))
+            elif not started:
                 header.append(line)
             else:
-                cur.append(line)
+                sizes_case[-1] += len(line)
     sizes = [0] * k
-    chunks = [[] for _ in range(k)]
-    order = sorted(range(len(cases)), key=lambda i: -sum(len(l) for l in cases[i]))
-    for i in order:
+    owner = [0] * len(sizes_case)
+    for i in sorted(range(len(sizes_case)), key=lambda i: -sizes_case[i]):
         j = sizes.index(min(sizes))
-        chunks[j].append(i)
-        sizes[j] += sum(len(l) for l in cases[i])
-    paths = []
-    for j in range(k):
-        if not chunks[j]:
-            continue
-        pth = f"{transcript}.part{j}"
-        with open(pth, "w") as f:
-            f.writelines(header)
-            for i in sorted(chunks[j]):
-                f.writelines(cases[i])
-        paths.append(pth)
-    return paths
+        owner[i] = j
+        sizes[j] += sizes_case[i]
+    used = sorted(set(owner))
+    outs = {j: open(f"{transcript}.part{j}", "w") for j in used}
+    for fo in outs.values():
+        fo.writelines(header)
+    with open(transcript) as f:
+        idx, cur = -1, None
+        for line in f:
+            if line.startswith("C "):
+                idx += 1
+                cur = outs[owner[idx]]
+            if cur is not None:
+                cur.write(line)
+    for fo in outs.values():
+        fo.close()
+    return [f"{transcript}.part{j}" for j in used]
 
 
 def run_driver(transcript, jobs=16):
@@ -234,6 +239,12 @@ def run_driver(transcript, jobs=16):
             if isinstance(v, int):
                 res["summary"][k2] = res["summary"].get(k2, 0) + v
         res["driver_rc"] |= pr.returncode
+    for p in parts:
+        if p != transcript:
+            try:
+                os.remove(p)
+            except OSError:
+                pass
     res["wall_driver"] = time.time() - t0
     return res
 
@@ -247,38 +258,44 @@ def run_harness_only(exe, suite, seed, tier, tag, extra=()):
     return rc == 0 and os.path.exists(tr), tr, out[-500:], w
 
 
-def _cases(path):
-    cases, order, cur = {}, [], None
+def _case_stream(path):
+    """yield (case id, lines) one case at a time, ignoring the P/V header lines"""
+    cur, lines = None, []
     with open(path) as f:
         for l in f:
             if l.startswith(("P ", "V ")):
                 continue
             if l.startswith("C "):
-                cur = l.split()[1]
-                cases[cur] = [l]
-                order.append(cur)
+                if cur is not None:
+                    yield cur, lines
+                cur, lines = l.split()[1], [l]
             elif cur is not None:
-                cases[cur].append(l)
-    return cases, order
+                lines.append(l)
+    if cur is not None:
+        yield cur, lines
 
 
 def compare_transcripts(a, b):
     """bit-identity of two transcripts case by case, ignoring the P/V header lines.  Cases whose
        constructor is refused (Err/panic) by the DEFAULT build are outside 'parameters that fit the
-       default type' and are skipped.  returns (lines compared, cases, skipped, None | dict)"""
-    ca, order = _cases(a)
-    cb, _ = _cases(b)
+       default type' and are skipped.  Both files are streamed (same programs, same order).
+       returns (lines compared, cases, skipped, None | dict)"""
     n = ncases = skipped = 0
-    for cid in order:
-        la = ca[cid]
-        lb = cb.get(cid)
+    sb = _case_stream(b)
+    for cid, la in _case_stream(a):
+        nb = next(sb, None)
         ctor = next((l for l in la if l.startswith("N ")), None)
+        if nb is None or nb[0] != cid:
+            if ctor is not None and (" ; ok" not in ctor):
+                skipped += 1
+            ncases += 1
+            return n, ncases, skipped, {"line": 0, "case": cid, "a": la[0].strip()[:300],
+                                         "b": "(case missing)" if nb is None else f"(case {nb[0]} in its place)"}
+        lb = nb[1]
         if ctor is not None and (" ; ok" not in ctor):
             skipped += 1
             continue
         ncases += 1
-        if lb is None:
-            return n, ncases, skipped, {"line": 0, "case": cid, "a": la[0].strip()[:300], "b": "(case missing)"}
         for i, (x, y) in enumerate(zip(la, lb)):
             n += 1
             if x != y:
@@ -442,6 +459,14 @@ class Check:
         if not cov["samples"]:
             cov["samples"] = ["(no samples recorded)"]
         cov["known_findings_hit"] = sorted(self.known_hits)
+        # disk: the replays have been written; large transcripts of this check are not needed any more
+        try:
+            for fn in os.listdir(WORK):
+                fp = os.path.join(WORK, fn)
+                if fn.startswith(self.prop + "-") and os.path.isfile(fp) and os.path.getsize(fp) > 50_000_000:
+                    os.remove(fp)
+        except OSError:
+            pass
         out_lines = []
         for sig, text in sorted(self.known_hits.items()):
             out_lines.append(f"KNOWN-FINDING: property={self.prop} {sig} {text}")
